@@ -28,9 +28,26 @@ MANIFEST = {
             "C07_gen_permit_frame_check, C07_gen_frame); constructor, bounds, readers of describe_state/show, add_rule keyword plumbing, "
             "request-handler layout against the four agent actions, the seven loader loops and the device defaults regenerated as tables "
             "with their own obligations; differential rig R-acl through the Python API, the request API, agent actions and "
-            "Router/Firewall.from_config, on bare lists, router lists and all seven firewall lists, with real pings and injected frames.",
-    "note": "C07-specific: pydantic coercion of ports/protocols/addresses and the PrettyTable rendering of show() are exercised by the rig, "
-            "not modelled; what a device does with a permitted frame is C06/C08's subject (here only the verdicts on its real frames).",
+            "Router/Firewall.from_config, on bare lists, router lists and all seven firewall lists, with real pings and injected frames. "
+            "Round 7: (a) VALUE layer of the port / protocol fields — port_validator and protocol_validator translated and proved equal to "
+            "their specification over the regenerated PORT_LOOKUP / PROTOCOL_LOOKUP / VALID_PROTOCOLS (C07_gen_port_validator, "
+            "C07_gen_protocol_validator, table facts C07_gen_port_table / C07_gen_protocol_table, declarations C07_gen_field_types); "
+            "proved for every written value what the Python API, the request API, the agent action and the scenario-file loaders make "
+            "of it (None / sentinel ALL / name / number / junk; double validation harmless; action = request except None; loaders accept "
+            "names only, falsy = unspecified; port 0 under its name NONE is a specified port on every surface); rig family `parse` "
+            "ENUMERATES every name of both tables, case variants, boundary numbers, sentinels and junk on 7 surfaces x 3 fields. "
+            "(b) LIFECYCLE — last-write-wins theorem for the list built from a scenario file (C07_installAll_slot, C07_configured_list: a "
+            "file rule at 22 / 23 replaces the default permit); the code's agreement that no lifecycle hook is an operation is a TIE: "
+            "inventory of every writer of an ACL in the package and of every lifecycle hook (C07_gen_acl_writers, "
+            "C07_gen_hooks_leave_acl_alone) + rig family `episode` through the real PrimaiteGymEnv (episodes 0-2, env.reset, steps, power "
+            "cycles, Node.reset, setup_for_episode on device and simulation; rules at 0, 1, 22, 23). (c) READERS — ACLRule.describe_state "
+            "and the row cells of show() translated; describe_state proved to be the identity on a rule (C07_gen_describe_rule), show() "
+            "the identity except port 0 displayed as ANY (C07_gen_show_cells).",
+    "note": "C07-specific: PARTIAL / not modelled: parsing of ADDRESS strings (IPv4Address() of the standard library; addresses reach the model "
+            "already parsed; malformed ones are exercised by the rig's malformed stream only), bool / non-str-non-int values of ports, pydantic's "
+            "smart-union mechanics (modelled as 'validated value, else the literal'), PrettyTable rendering beyond the cells, get_relevant_rules "
+            "(dead code), ACLRule.__str__; that lifecycle hooks do not write lists is tied by inventory + rig, not proved about Python; what a "
+            "device does with a permitted frame is C06/C08's subject (here only the verdicts on its real frames).",
     "technique": "Lean 4 theorems over an executable ACL model; model tied by source translation, regenerated tables and a differential rig",
     "design_ref": "5/C07",
 }
